@@ -76,6 +76,10 @@ private:
 	// true while there is an outstanding write operation to the server
 	bool m_writing_to_server;
 
+	// true from the moment the first request starts resolving/connecting to
+	// the origin until that attempt has succeeded or failed
+	bool m_connecting = false;
+
 	// receive buffer for requests from the client. i.e. client -> proxy (us) -> server
 	char m_client_in_buffer[65536];
 	// buffer size
